@@ -96,6 +96,14 @@ DoMDial(t, nph) ==
     /\ MDial(t)
     /\ hist' = Append(hist, [a |-> "mdial", c |-> Len(conns'), t |-> t])
     /\ ph' = nph /\ UNCHANGED done
+DoMPresentX(c, k, proof, extra, nph) ==
+    /\ MPresentX(c, k, proof, extra)
+    /\ hist' = Append(hist, [a |-> "present", c |-> c, k |-> k, proof |-> proof, extra |-> extra])
+    /\ ph' = nph /\ UNCHANGED done
+DoMListenX(k, proof, extra, nph) ==
+    /\ MListenX(k, proof, extra)
+    /\ hist' = Append(hist, [a |-> "mlisten", k |-> k, proof |-> proof, extra |-> extra])
+    /\ ph' = nph /\ UNCHANGED done
 DoMPresent(c, k, proof, nph) ==
     /\ MPresent(c, k, proof)
     /\ hist' = Append(hist, [a |-> "present", c |-> c, k |-> k, proof |-> proof])
@@ -161,20 +169,51 @@ AnswerNext ==
 (* created the channel and M withholds InitDone; the call is issued while the handshake is in flight, and M then  *)
 (* completes it (or never does), or M completes first and the call comes afterwards.  QUIC / SSH: the inbound     *)
 (* session / connection of M is established, then the call.  Finally M writes into whatever it has.              *)
+RaceIds == IF Depth >= 1 THEN Nodes ELSE {"B", "M"}
 RaceNext ==
     \/ ph = 0 /\ DoMDial("A", 1)
     \/ ph = 1 /\ \E c \in MConn :
-          IF kind = "p2pke" THEN \E k \in Nodes, proof \in {"own", "none"} : DoMHello(c, k, proof, 2)
+          IF kind = "p2pke"
+          THEN \E k \in Nodes, proof \in {"own", "none"} :
+                  \* Depth = 0: one InitHello that can complete and one that is refused
+                  (Depth >= 1 \/ <<k, proof>> \in {<<"M", "own">>, <<"B", "none">>}) /\ DoMHello(c, k, proof, 2)
           ELSE IF kind = "quic" THEN DoMPresent(c, "M", "own", 10)
           ELSE DoMSigned(c, "M", 10)
-    \/ ph = 2 /\ \/ \E x \in Nodes : DoTellA("A", x, "M", 3) \/ DoLookup("A", x, "M", TRUE, 3)
+    \/ ph = 2 /\ \/ \E x \in RaceIds : DoTellA("A", x, "M", 3) \/ DoLookup("A", x, "M", TRUE, 3)
                  \/ \E c \in MConn : DoMFinish(c, 10)
     \/ ph = 3 /\ \/ \E c \in MConn : DoMFinish(c, 4)
                  \/ Skip(4)
     \/ ph = 4 /\ DoJoin(5)
-    \/ ph = 10 /\ \E x \in Nodes : DoTell("A", x, "M", FALSE, 5) \/ DoLookup("A", x, "M", FALSE, 5)
+    \/ ph = 10 /\ \E x \in RaceIds : DoTell("A", x, "M", FALSE, 5) \/ DoLookup("A", x, "M", FALSE, 5)
     \/ ph = 5 /\ \E c \in MConn : DoMSend(c, FALSE, 6)
     \/ ph = 6 /\ Finish
+
+(* cred: credential presentations of a certificate-based transport (quicswarm).  M presents a chain            *)
+(* (leaf key, proof, one additional unproven certificate): own Ed25519 / own ECDSA (not loadable by the registry) / *)
+(* a victim's key as leaf, with its own signature or none, followed by nothing / a victim's certificate / its own  *)
+(* Ed25519 certificate.  Inbound: M dials A, then a Tell and an Ask of M and A's reply.  Outbound: A sends to      *)
+(* (any identity, M's address) while M answers with the chain, then M writes back.  Depth = 0 keeps the classes    *)
+(* named in the design (a proven leaf with any extra; an unproven leaf alone), Depth = 1 takes the full product.   *)
+CredSet == {cr \in [k : Keys, proof : {"own", "none"}, extra : Extras \cup {"-"}] :
+               \/ Depth >= 1
+               \/ (cr.proof = "own" /\ cr.k \in {"M", "Me"})
+               \/ cr.extra = "-"}
+CredNext ==
+    \/ ph = 0 /\ \/ DoMDial("A", 1)
+                 \/ \E cr \in CredSet : IF cr = [k |-> "M", proof |-> "own", extra |-> "-"] THEN Skip(20)
+                                        ELSE DoMListenX(cr.k, cr.proof, cr.extra, 20)
+    \* inbound
+    \/ ph = 1 /\ \E c \in MConn, cr \in CredSet : DoMPresentX(c, cr.k, cr.proof, cr.extra, 3)
+    \/ ph = 3 /\ \E c \in MConn : DoMSend(c, FALSE, 4)
+    \/ ph = 4 /\ \E c \in MConn : DoMSend(c, TRUE, 5)
+    \/ ph = 5 /\ IF DlAt("A") # {}
+                 THEN \E dl \in DlAt("A") : (\A d2 \in DlAt("A") : dl.p <= d2.p) /\ DoReply("A", dl, FALSE, 6)
+                 ELSE Skip(6)
+    \/ ph = 6 /\ Finish
+    \* outbound
+    \/ ph = 20 /\ \E x \in (IF Depth >= 1 THEN Nodes ELSE {"B", "M"}) :
+                        DoTell("A", x, "M", FALSE, 21) \/ DoLookup("A", x, "M", FALSE, 21)
+    \/ ph = 21 /\ IF AConn # {} THEN \E c \in AConn : DoMSend(c, FALSE, 6) ELSE Skip(6)
 
 \* unrestricted random walk (simulation mode)
 MixedNext ==
@@ -201,6 +240,7 @@ FamNext == CASE Fam = "pair"   -> PairNext
              [] Fam = "auth"   -> AuthNext
              [] Fam = "answer" -> AnswerNext
              [] Fam = "race"   -> RaceNext
+             [] Fam = "cred"   -> CredNext
              [] OTHER          -> MixedNext
 
 GenNext == \/ ~Quiescent /\ Settle /\ UNCHANGED <<hist, ph, done>>
